@@ -210,6 +210,7 @@ CHECKS = {'C01': ('exploration',
 
 # additions of round 6, appended to the level text
 ROUND7 = {
+    "C03": "later turns that repeat the LLM text of a faulted turn, exception kinds from the LangChain hierarchy.",
     "C07": "repeated leaves in formulas, event leaves inside when groups.",
     "C09": "long cascades of internal events (above 1000) for one external event.",
     "C13": "files whose lines parser and message formatter number differently.",
